@@ -698,6 +698,104 @@ Qed.
 Lemma concat_map_map : forall (A B : Type) (k : A -> B) (ls : list (list A)), concat (map (map k) ls) = map k (concat ls).
 Proof. intros. symmetry. apply concat_map. Qed.
 
+(* ------------------------------------------------------------------------------------- *)
+(* continuing isomorphic histories in the same way keeps them isomorphic                  *)
+(* ------------------------------------------------------------------------------------- *)
+Lemma Forall2_impl : forall (A B : Type) (P Q : A -> B -> Prop), (forall a b, P a b -> Q a b) ->
+  forall l l', Forall2 P l l' -> Forall2 Q l l'.
+Proof. intros A B P Q HPQ l l' HF. induction HF; constructor; auto. Qed.
+
+Lemma pref_rel_mono : forall (R R2 : nat -> nat -> Prop), (forall a b, R a b -> R2 a b) ->
+  forall x y, pref_rel R x y -> pref_rel R2 x y.
+Proof. intros R R2 HM [a|u] [b|v] Hxy; cbn in *; auto. Qed.
+
+Lemma ind_rel_mono : forall (R R2 : nat -> nat -> Prop), (forall a b, R a b -> R2 a b) ->
+  forall x y, ind_rel R x y -> ind_rel R2 x y.
+Proof.
+  intros R R2 HM x y [H1 [H2 [H3 [H4 [H5 H6]]]]]. unfold ind_rel. repeat split; try assumption.
+  destruct (i_op x) as [p|], (i_op y) as [q|]; cbn in *; try contradiction; [|exact I].
+  destruct H6 as [A [B [C D]]]. repeat split; try assumption.
+  eapply Forall2_impl; [|exact D]. apply pref_rel_mono. exact HM.
+Qed.
+
+Lemma ren_ind_dummy : forall f, ren_ind f dummy_ind = dummy_ind.
+Proof. reflexivity. Qed.
+
+Section Extend.
+Variables (R : nat -> nat -> Prop) (H H' : hist) (G : ext) (f : nat -> nat).
+Let h := h_heap H.
+Let h' := h_heap H'.
+Let nc := length (x_cells G).
+Hypothesis ISO : iso_by R H H'.
+Hypothesis BOUND : forall r r', R r r' -> r < length h /\ r' < length h'.
+(* the continuation mentions related old objects, or new cells (renamed positionally) *)
+Hypothesis SCOPE : forall r, In r (ext_refs G) ->
+  (r < length h /\ R r (f r)) \/ (exists i, i < nc /\ r = length h + i /\ f r = length h' + i).
+
+Definition R2 (r r' : nat) : Prop := R r r' \/ exists i, i < nc /\ r = length h + i /\ r' = length h' + i.
+
+Lemma R2_of_scope : forall r, In r (ext_refs G) -> R2 r (f r).
+Proof.
+  intros r Hr. destruct (SCOPE r Hr) as [[_ HR]|[i [Hi [E1 E2]]]]; [left; exact HR|].
+  right. exists i. rewrite E2. repeat split; assumption.
+Qed.
+
+Lemma get_old : forall (a b : list (ind pref)) r, r < length a -> get (a ++ b) r = get a r.
+Proof. intros a b r Hr. unfold get. apply app_nth1. exact Hr. Qed.
+
+Lemma get_new : forall (a b : list (ind pref)) i, get (a ++ b) (length a + i) = get b i.
+Proof. intros a b i. unfold get. rewrite app_nth2 by lia. f_equal. lia. Qed.
+
+Lemma get_ren : forall cells i, get (map (ren_ind f) cells) i = ren_ind f (get cells i).
+Proof. intros cells i. unfold get. rewrite <- (ren_ind_dummy f) at 1. apply map_nth. Qed.
+
+Lemma in_ref_parents : forall c p, In (PRef p) (parents_of c) -> In p (ref_parents c).
+Proof.
+  intros c p Hp. unfold ref_parents. apply in_flat_map. exists (PRef p). split; [exact Hp|left; reflexivity].
+Qed.
+
+Theorem extend_iso_by : iso_by R2 (extend H G) (extend H' (ren_ext f G)).
+Proof.
+  assert (HM : forall a b, R a b -> R2 a b) by (intros a b Hab; left; exact Hab).
+  constructor; cbn [extend h_obj h_tuning h_dir h_gens h_snaps h_heap ren_ext x_cells x_gens x_snaps].
+  - exact (iso_obj ISO).
+  - exact (iso_tuning ISO).
+  - exact (iso_dir ISO).
+  - apply Forall2_app.
+    + eapply Forall2_impl; [|exact (iso_gens ISO)]. intros g g' [A [B [C D]]]. repeat split; try assumption.
+      eapply Forall2_impl; [|exact D]. exact HM.
+    + apply Forall2_map_r. intros g Hg. unfold gen_rel, ren_gen. cbn. repeat split; try reflexivity.
+      apply Forall2_map_r. intros r Hr. apply R2_of_scope. unfold ext_refs. apply in_or_app. right. apply in_or_app. left.
+      eapply in_concat_map_members; eassumption.
+  - apply Forall2_app.
+    + eapply Forall2_impl; [|exact (iso_snaps ISO)]. intros l l' D. eapply Forall2_impl; [|exact D]. exact HM.
+    + apply Forall2_map_r. intros l Hl. apply Forall2_map_r. intros r Hr. apply R2_of_scope.
+      unfold ext_refs. apply in_or_app. right. apply in_or_app. right. apply in_concat. exists l. split; assumption.
+  - intros r r' [Hr|[i [Hi [E1 E2]]]].
+    + destruct (BOUND r r' Hr) as [B1 B2]. fold h h'. rewrite (get_old h _ r B1), (get_old h' _ r' B2).
+      eapply ind_rel_mono; [exact HM|]. exact (iso_inds ISO r r' Hr).
+    + subst r r'. fold h h'. rewrite !get_new, get_ren.
+      set (c := get (x_cells G) i).
+      assert (Hc : In c (x_cells G)) by (unfold c, get; apply nth_In; exact Hi).
+      unfold ind_rel, ren_ind. cbn [i_uid i_fit i_graph i_meta i_ng i_op]. repeat split; try reflexivity.
+      pose proof (in_ref_parents c) as Hpar. unfold parents_of in Hpar.
+      destruct (i_op c) as [o|]; cbn [option_map pop_rel]; [|exact I]. cbn [p_type p_ops p_uid p_parents].
+      repeat split; try reflexivity. apply Forall2_map_r. intros x Hx. destruct x as [p|u]; cbn [ren_pref pref_rel]; [|reflexivity].
+      apply R2_of_scope. unfold ext_refs. apply in_or_app. left. apply in_flat_map. exists c. split; [exact Hc|apply Hpar; exact Hx].
+  - intros r r1 r2 [A|[i [Hi [E1 E2]]]] [B|[j [Hj [F1 F2]]]].
+    + exact (iso_fun ISO r r1 r2 A B).
+    + destruct (BOUND _ _ A). lia.
+    + destruct (BOUND _ _ B). lia.
+    + lia.
+  - intros r1 r2 r' [A|[i [Hi [E1 E2]]]] [B|[j [Hj [F1 F2]]]].
+    + exact (iso_inj ISO r1 r2 r' A B).
+    + destruct (BOUND _ _ A). lia.
+    + destruct (BOUND _ _ B). lia.
+    + lia.
+Qed.
+
+End Extend.
+
 Section RoundTrip.
 Variable H : hist.
 Let h := h_heap H.
@@ -898,6 +996,31 @@ Proof.
   subst b. apply (proj1 (NoDup_nth_error rs) rs_nodup); [apply nth_error_Some; rewrite Ha; discriminate|congruence].
 Qed.
 
+Lemma decoded_length : length (h_heap H') = length rs.
+Proof.
+  destruct decoded_cells as [hp4 [Heq [Hlen _]]]. subst H'. cbn [h_heap]. rewrite Hlen. unfold pool. apply map_length.
+Qed.
+
+(* the loaded history continued like the original one: old objects through the uid, new cells by position *)
+Definition cont_f (r : nat) : nat :=
+  if r <? length h then ixp (uid_of h r) else length (h_heap H') + (r - length h).
+
+Theorem continuation_iso : forall G,
+  (forall r, reach H r -> r < length h) ->
+  (forall r, In r (ext_refs G) -> (r < length h /\ reach H r) \/ (length h <= r < length h + length (x_cells G))) ->
+  iso (extend H G) (extend H' (ren_ext cont_f G)).
+Proof.
+  intros G VALID SC. exists (R2 RT H H' G). apply extend_iso_by.
+  - exact decode_encode_iso_by.
+  - intros r r' Hrr. unfold RT in Hrr. split.
+    + apply VALID. apply rs_in_pool. eapply nth_error_In. exact Hrr.
+    + rewrite decoded_length. apply nth_error_Some. rewrite Hrr. discriminate.
+  - intros r Hr. destruct (SC r Hr) as [[Hlt Hre]|[Hge Hlt]].
+    + left. split; [exact Hlt|]. unfold cont_f. fold h. apply Nat.ltb_lt in Hlt. rewrite Hlt. apply RT_member. exact Hre.
+    + right. exists (r - length h). fold h. split; [lia|]. split; [lia|].
+      unfold cont_f. destruct (r <? length h) eqn:Elt; [apply Nat.ltb_lt in Elt; lia|reflexivity].
+Qed.
+
 End RoundTrip.
 
 Theorem decode_encode_iso : forall H d d' E H',
@@ -1087,6 +1210,27 @@ Proof.
   intros H d d' E H' UF PCL Henc Hdec.
   destruct (decode_encode_iso H d d' E H' UF PCL Henc Hdec) as [Hiso _].
   rewrite <- (encode_respects_iso H H' d Hiso). exact Henc.
+Qed.
+
+(* a loaded history that is continued (new generations / snapshots with new individuals, children of
+   loaded ones) is saved exactly like the original history continued in the same way: the encoder
+   reads nothing but the generations, the archive and the objects reachable from them *)
+Theorem continuation_encode : forall H d d' E H' G,
+  uid_faithful H -> no_str H ->
+  encode_history d H = Some E -> decode_history d' E = Some H' ->
+  (forall r, reach H r -> r < length (h_heap H)) ->
+  (forall r, In r (ext_refs G) -> (r < length (h_heap H) /\ reach H r) \/
+                                  (length (h_heap H) <= r < length (h_heap H) + length (x_cells G))) ->
+  exists f, (forall i, i < length (x_cells G) -> f (length (h_heap H) + i) = length (h_heap H') + i) /\
+            iso (extend H G) (extend H' (ren_ext f G)) /\
+            forall d2, encode_history d2 (extend H G) = encode_history d2 (extend H' (ren_ext f G)).
+Proof.
+  intros H d d' E H' G UF NS Henc Hdec VALID SC. unfold encode_history in Henc.
+  destruct (pool_refs d H) as [rs|] eqn:Hpool; [|discriminate]. inversion Henc; subst E; clear Henc.
+  pose proof (continuation_iso H UF NS d rs Hpool d' H' Hdec G VALID SC) as Hiso.
+  eexists. split; [|split; [exact Hiso|intros d2; apply encode_respects_iso; exact Hiso]].
+  intros i Hi. unfold cont_f. destruct (length (h_heap H) + i <? length (h_heap H)) eqn:E; [apply Nat.ltb_lt in E; lia|].
+  f_equal. lia.
 Qed.
 
 (* ------------------------------------------------------------------------------------- *)
